@@ -18,10 +18,21 @@ import types
 import grpc
 
 
+# grpc (1.84, default channel args) refuses response metadata - which carries
+# the status details - above a hard limit of 16 KiB: the client then sees
+# RESOURCE_EXHAUSTED instead of the server's status. Between the 8 KiB soft
+# and the 16 KiB hard limit the outcome is probabilistic; the harness never
+# generates details in that band. Calibrated in simkit/calibrate.py.
+HARD_METADATA_LIMIT = 16 * 1024
+
+
 class SimRpcError(grpc.RpcError, grpc.Call):
 
   def __init__(self, code, details):
     super().__init__()
+    if details is not None and len(str(details).encode('utf-8', 'replace')) > HARD_METADATA_LIMIT:
+      code = grpc.StatusCode.RESOURCE_EXHAUSTED
+      details = 'Stream removed (received metadata size exceeds hard limit)'
     self._c = code
     self._d = details
 
